@@ -26,6 +26,39 @@ pub fn exec(s: &mut CrdtSession, toks: &[&str], enc: TextEncoding) -> Vec<String
             s.iso_snap.insert(toks[1].to_string(), hs);
             res
         }
+        // crdt.x.isocheck r : C29 direct oracle, on an isolated replica with nothing pending: the committed
+        // isolated changes "depend only on those heads and the isolated chain" — a fresh document given
+        // exactly the ancestors of the replica's (isolation) heads accepts them, and shows what the
+        // isolated replica reads ("the state at those heads plus the transaction's own edits")
+        "crdt.x.isocheck" => {
+            let d = s.replicas.get_mut(toks[1]).unwrap();
+            let mut res = vec!["ok".to_string()];
+            if d.pending_ops() > 0 || !s.iso_snap.contains_key(toks[1]) { return res; }
+            let heads = d.get_heads();
+            let all = d.get_changes(&[]);
+            let by_hash: BTreeMap<ChangeHash, automerge::Change> = all.iter().map(|c| (c.hash(), c.clone())).collect();
+            let mut anc: std::collections::BTreeSet<ChangeHash> = Default::default();
+            let mut stack = heads.clone();
+            while let Some(h) = stack.pop() {
+                if !anc.insert(h) { continue; }
+                if let Some(c) = by_hash.get(&h) { stack.extend(c.deps().iter().cloned()); }
+            }
+            let closure: Vec<automerge::Change> = all.iter().filter(|c| anc.contains(&c.hash())).cloned().collect();
+            let want = show_doc(d, None, enc);
+            let outcome = std::panic::catch_unwind(std::panic::AssertUnwindSafe(|| {
+                let mut f = AutoCommit::new_with_encoding(enc).with_actor(ActorId::from(vec![0xfe, 0xfe]));
+                match f.apply_changes(closure) {
+                    Ok(()) => if f.get_heads() != heads { Err("is left with different heads (changes held back)".to_string()) } else { Ok(show_doc(&f, None, enc)) },
+                    Err(e) => Err(format!("rejects them ({})", crdt::err_class(&e))),
+                }
+            }));
+            match outcome {
+                Ok(Ok(got)) => if got != want { res.push("! C29 sig=isolated-state-not-closure the isolated replica reads a state different from the document made of exactly the ancestors of its heads".to_string()); },
+                Ok(Err(e)) => res.push(format!("! C29 sig=isolated-change-not-self-contained a fresh document given exactly the ancestors of the isolated heads {}", e)),
+                Err(_) => res.push("! C29 sig=isolated-change-not-self-contained a fresh document given exactly the ancestors of the isolated heads panics in apply_changes (an op refers to something outside its causal past)".to_string()),
+            }
+            res
+        }
         // crdt.x.integrate r
         "crdt.x.integrate" => {
             let d = s.replicas.get_mut(toks[1]).unwrap();
@@ -234,12 +267,49 @@ pub fn generate(r: &mut Rng, _opts: &BTreeMap<String, String>, sess: &mut Sessio
             local_tx(r, sess, out, "r0", &mut known, &mut all);
             exec_line(sess, "crdt.state r0", out);
         }
+        // rich-text calls under isolation: block splits, marks and splices on a text object resolve their
+        // indexes against the state at the isolation heads (plus the transaction's own edits)
+        #[cfg(feature = "e_richtext")]
+        if r.chance(1, 2) {
+            let mut texts: Vec<String> = known.iter().filter(|(_, t)| *t == ObjType::Text).map(|(o, _)| o.clone()).collect();
+            texts.extend(sess.crdt.marked_texts.iter().cloned()); texts.sort(); texts.dedup();
+            let live: Vec<String> = texts.into_iter().filter(|o| { let d = sess.crdt.replicas.get_mut("r0").unwrap(); d.object_type(super::crdt::parse_exid(o)).is_ok() }).collect();
+            if !live.is_empty() {
+                let obj = live[r.below(live.len() as u64) as usize].clone();
+                out.count("isolated_richtext_tx");
+                for _ in 0..r.range(1, 3) {
+                    let len = { let d = sess.crdt.replicas.get_mut("r0").unwrap(); d.length(super::crdt::parse_exid(&obj)) };
+                    let pos = r.below(len as u64 + 1) as usize;
+                    match r.below(4) {
+                        0 | 1 => { exec_line(sess, &format!("crdt.rt.block r0 {} {}", obj, pos), out); }
+                        2 if len > 0 => {
+                            let a = r.below(len as u64) as usize; let b = a + 1 + r.below((len - a) as u64) as usize;
+                            exec_line(sess, &format!("crdt.rt.mark r0 {} {} {} {} {} b1", obj, a, b, ["before", "after", "both", "none"][r.below(4) as usize], hex::encode("bold")), out);
+                        }
+                        _ => { exec_line(sess, &format!("crdt.rt.splice r0 {} {} 0 {} -", obj, pos, hex::encode(["x", "yz", "é"][r.below(3) as usize])), out); }
+                    }
+                    exec_line(sess, "crdt.state r0", out);
+                }
+                let res = exec_line(sess, "crdt.commit r0", out);
+                if res.first().map(|s| s == "ok").unwrap_or(false) {
+                    // (the commit reports its hash: under isolation the change is made by the isolated actor)
+                    let hh = automerge::ChangeHash::try_from(super::unhx(res[1].strip_prefix("#hash ").unwrap()).as_slice()).unwrap();
+                    let c = sess.crdt.replicas.get_mut("r0").unwrap().get_change_by_hash(&hh).unwrap();
+                    let h = hex::encode(c.hash().0);
+                    exec_line(sess, &super::crdt::def_line(&c), out);
+                    exec_line(sess, &format!("crdt.local r0 {}", h), out);
+                    all.push(h);
+                }
+                exec_line(sess, "crdt.state r0", out);
+            }
+        }
         // the other replica keeps working and its changes arrive while isolated
         if r.chance(1, 2) {
             local_tx(r, sess, out, "r1", &mut known, &mut all);
             if let Some(last) = all.last().cloned() { exec_line(sess, &format!("crdt.apply r0 {}", last), out); }
             exec_line(sess, "crdt.state r0", out);
         }
+        exec_line(sess, "crdt.x.isocheck r0", out);
         exec_line(sess, "crdt.x.integrate r0", out);
         exec_line(sess, "crdt.state r0", out);
     }
